@@ -185,12 +185,24 @@ package eval
 // The recursive evaluator calls (Eval, evalTransformStmts, the table-dispatched operators) are opaque here: they
 // may do anything to the heap; the obligations below hold whatever they do.
 
-//@ func LHSOverRHSStrategy.eval
+// Evaluation reads the expression tree and never writes it: `!=` is evaluated on a copy of its node with the operator
+// replaced (an operand may re-enter the same node through a recursive view call).
+//@ func (NegateBinExprStrategy).eval
+//@   maypanic
+//@   assert @store:F.sysl.Expr_BinExpr.% [the-expression-being-evaluated-is-not-modified] target != binexpr
+
+//@ func (LHSOverRHSStrategy).eval
 //@   maypanic
 //@   requires assign != nil && binexpr != nil
 //@   mark @after:eval.Eval#1 afterLhs
 //@   ensures [scopevar-restored] in(old(binexpr.Scopevar), assign) == at("afterLhs", in(old(binexpr.Scopevar), assign))
 //@   ensures [scopevar-value] in(old(binexpr.Scopevar), assign) ==> assign[old(binexpr.Scopevar)] == at("afterLhs", assign[old(binexpr.Scopevar)])
+// (the two state postconditions above need the nested evaluator to leave the expression node alone: undecided.) What is
+// decided without that: once the operator function has returned, the scope variable's binding is deleted, and the
+// only binding written back is the one that was saved before the operator ran.
+//@   ghostset @call:builtin:delete unbound
+//@   ensures [scope-variable-unbound-after-the-operator] ghost("unbound")
+//@   assert @mapupdate:eval.Scope [only-the-saved-binding-is-restored] hasScopeVar && stored == scopeVarValue
 
 //@ func evalTransformUsingAppender
 //@   requires assign != nil && x != nil
